@@ -148,16 +148,21 @@ Proof.
 Qed.
 
 (* ---------- Check.check_case reports kind 2 exactly for inadmissible traces ---------- *)
+Lemma scan_from_kind01 {St X} (f : St -> X -> St * nat) :
+  (forall s x, snd (f s x) = 0%nat \/ snd (f s x) = 1%nat) ->
+  forall xs s i first1, (first1 mod 4 <> 2)%nat -> ((scan_from f s xs i first1) mod 4 <> 2)%nat.
+Proof.
+  intros Hf. induction xs as [|x t IH]; intros s i first1 H1; [exact H1|].
+  cbn [scan_from]. pose proof (Hf s x) as Hk. destruct (f s x) as [s' k]. cbn [snd] in Hk.
+  destruct Hk as [->| ->]; cbn [Nat.eqb Nat.leb].
+  - apply IH. exact H1.
+  - apply IH. destruct (Nat.eqb first1 0); [|exact H1].
+    rewrite Nat.add_comm, Nat.mod_add by lia. cbv. discriminate.
+Qed.
 Lemma scan_kind01 {St X} (f : St -> X -> St * nat) :
   (forall s x, snd (f s x) = 0%nat \/ snd (f s x) = 1%nat) ->
   forall xs s i, ((scan f s xs i) mod 4 <> 2)%nat.
-Proof.
-  intros Hf. induction xs as [|x t IH]; intros s i; [simpl; discriminate|].
-  cbn [scan]. pose proof (Hf s x) as Hk. destruct (f s x) as [s' k]. cbn [snd] in Hk.
-  destruct Hk as [->| ->]; cbn [Nat.eqb].
-  - apply IH.
-  - rewrite Nat.add_comm, Nat.mod_add by lia. cbv. discriminate.
-Qed.
+Proof. intros Hf xs s i. unfold scan. apply scan_from_kind01; [exact Hf|]. cbv. discriminate. Qed.
 
 Theorem kind2_iff_inadmissible defttl g t0 steps :
   ((check_case (CTrace defttl g t0 steps)) mod 4 = 2)%nat
